@@ -86,10 +86,16 @@ where
             } else {
                 Duration::from_millis(0)
             };
-            if result.timed_out()
-                || (duration.as_secs() == 0 && duration.subsec_nanos() < 1_000_000)
-            {
+            if result.timed_out() {
                 return None;
+            }
+            if duration.as_secs() == 0 && duration.subsec_nanos() < 1_000_000 {
+                // woken up by a notification with no time left to wait again: the element or
+                // unblock token this thread was woken for must not be left behind
+                return match queue.pop_front() {
+                    Some(Control::Elem(value)) => Some(value),
+                    Some(Control::Unblock) | None => None,
+                };
             }
         }
     }
